@@ -85,6 +85,8 @@ type RunHarness struct {
 	rfault  map[string]int
 	rskip   map[string]int
 	wfault  map[string]int
+	// Quiet: hook events that are not recorded (long runs whose monitor does not use them)
+	Quiet map[string]bool
 }
 
 // LastWrite returns the time of the latest write to a register (zero time if never written).
@@ -346,7 +348,9 @@ func (h *RunHarness) onTrace(fanId string, event string, args ...int) {
 		ev["pwm"] = h.Env.Get(st.px + "pwm")
 		ev["mode"] = h.modeOf(st)
 	}
-	h.Rec.Emit(ev)
+	if !h.Quiet[event] {
+		h.Rec.Emit(ev)
+	}
 	if h.OnEvent != nil {
 		h.mu.Lock()
 		h.nev++
